@@ -242,6 +242,61 @@ theorem corruption_never_delivered_partial (H : Bytes → Bytes) (hH : HLen H) (
       simp [hp.1, this]; omega)]
     intro h; cases h
 
+/-! ## what the connection's reader keeps for itself -/
+
+/-- `Connection.reader` forwards every received packet to `Responses()` EXCEPT the two transport-level messages of
+ADNL-over-TCP: a `tcp.pong` — first four bytes 03 fb 69 dc AND exactly 12 bytes long — and a
+`tcp.authentificationNonce` message (first four bytes b6 4a 5d e3). In particular a payload that merely starts with the
+pong magic but has any other length, and payloads starting with the ping / query / answer magics or with the key-id
+prefix, are delivered. -/
+theorem only_pong_consumed (p : Bytes) :
+    connReader p = .forward ↔
+      ¬ ((p.length = 12 ∧ p.take 4 = [0x03, 0xfb, 0x69, 0xdc]) ∨ (4 ≤ p.length ∧ p.take 4 = [0xb6, 0x4a, 0x5d, 0xe3])) := by
+  have e1 : le32 magicTcpPong = [0x03, 0xfb, 0x69, 0xdc] := by decide
+  have e2 : le32 magicTcpAuthNonce = [0xb6, 0x4a, 0x5d, 0xe3] := by decide
+  unfold connReader magicType
+  by_cases hl : p.length < 4
+  · have hne : ∀ l : Bytes, l.length = 4 → p.take 4 ≠ l := by
+      intro l hl4 h
+      have := congrArg List.length h
+      simp [List.length_take] at this
+      omega
+    simp only [hl, if_true]
+    have h1 : (0 : Nat) ≠ magicTcpPong := by decide
+    have h2 : (0 : Nat) ≠ magicTcpAuthNonce := by decide
+    simp [h1, h2, hne]
+  · simp only [hl, if_false]
+    obtain ⟨a, b, c, d, h4⟩ : ∃ a b c d, p.take 4 = [a, b, c, d] := by
+      have hlen : (p.take 4).length = 4 := by simp [List.length_take]; omega
+      match hq : p.take 4, hlen with
+      | [a, b, c, d], _ => exact ⟨a, b, c, d, rfl⟩
+    rw [h4]
+    simp only [readLe32_four_eq_iff a b c d magicTcpPong (by decide),
+      readLe32_four_eq_iff a b c d magicTcpAuthNonce (by decide), e1, e2]
+    have hge : 4 ≤ p.length := by omega
+    by_cases hp : [a, b, c, d] = [0x03, 0xfb, 0x69, 0xdc] ∧ p.length = 12
+    · simp [hp.1, hp.2]
+    · by_cases hn : [a, b, c, d] = [0xb6, 0x4a, 0x5d, 0xe3]
+      · simp [hn, hge]
+      · rw [if_neg hp, if_neg hn]
+        simp only [true_iff, not_or, not_and]
+        exact ⟨fun h12 h => hp ⟨h, h12⟩, fun _ => hn⟩
+
+/-- … hence `Responses()` yields, in order, exactly the received packets that are not such transport messages. -/
+theorem responses_are_the_rest (ps : List Packet) :
+    forwarded ps = ps.filter fun q =>
+      !decide ((q.payload.length = 12 ∧ q.payload.take 4 = [0x03, 0xfb, 0x69, 0xdc]) ∨
+        (4 ≤ q.payload.length ∧ q.payload.take 4 = [0xb6, 0x4a, 0x5d, 0xe3])) := by
+  unfold forwarded
+  apply List.filter_congr
+  intro q _
+  have := only_pong_consumed q.payload
+  by_cases h : connReader q.payload = .forward
+  · simp [h, this.mp h]
+  · have h' := (not_congr this).mp h
+    simp only [Decidable.not_not] at h'
+    simp [h, h']
+
 /-! ## the model uses the specification's constants
 
 `TongoModel/AdnlConstsSpec.lean` states the constants of ADNL-over-TCP independently of tongo (with the TL magics
